@@ -872,16 +872,33 @@ def rule_esc(ctx, F):
     ctx.extra.setdefault("coverage", {})["label_display_raw_octets"] = len(raw)
 
 
-def _writer_raw_set(w, F):
+def _writer_raw_set(w, F, subject_is=None, depth=0):
     """Octets for which the per-octet body reaches a write_char/`write!("{}", ch as char)` of the octet itself
-    rather than an escape."""
+    rather than an escape.  The per-octet code is either the body of a `for` loop over the label's octets or
+    a closure handed to an iterator adaptor (`iter().try_for_each(|ch| ..)`)."""
     # the loop variable: element of the label's octets (deref of the iterator item)
-    def subject_is(t):
-        t = deep_strip(t)
-        while t[0] == "cast":
-            t = deep_strip(t[2])
-        s = show(t)
-        return ("Iterator::next" in s or "next(" in s) and "Some" in s
+    if subject_is is None:
+        def subject_is(t):
+            t = deep_strip(t)
+            while t[0] == "cast":
+                t = deep_strip(t[2])
+            s = show(t)
+            return ("Iterator::next" in s or "next(" in s) and "Some" in s
+        res = _writer_raw_set(w, F, subject_is, depth)
+        if res:
+            return res
+        if depth < 2:
+            from mirlib import closures_created_in
+            for bi, cb, ops in closures_created_in(F, w):
+                def item(t):
+                    t = deep_strip(t)
+                    while t[0] == "cast":
+                        t = deep_strip(t[2])
+                    return t == ("arg", 2)
+                res = _writer_raw_set(cb, F, item, depth + 1)
+                if res:
+                    return res
+        return res
     parts = byte_partition(w, F, subject_is)
     if not parts:
         return None
